@@ -11,7 +11,7 @@
    property layer on every Impl transition; nothing stops at the first counterexample: each is printed as a CEX record
    and every transition is printed as a TR tuple, to be replayed on the real element.                              *)
 EXTENDS ChildOrder, Json, IOUtils, SequencesExt, FiniteSetsExt, TLC
-CONSTANTS DEPTH, SUBSETS, MAXSLOTS
+CONSTANTS DEPTH, SUBSETS, MAXSLOTS, L2OPS, L2MAXSLOTS
 VARIABLES st, depth
 
 Cfg == JsonDeserialize(IOEnv.CASES_FILE)
@@ -42,7 +42,7 @@ FamSets(c, k) ==       \* nothing else | all later | all earlier | all permitted
 SameAlternative(c, i, k) == c.slots[i].alt = 0 \/ c.slots[i].alt # c.slots[k].alt \/ c.slots[i].br = c.slots[k].br
 FamOne(c, k) ==        \* one other permitted child, each (an exclusive slot: each alternative); own slot empty / populated
   UNION {{Flat(With(Base(c, k, {}, 1), i, c.slots[i].singles[x])) : x \in DOMAIN c.slots[i].singles} : i \in 1..N(c)}
-  \cup UNION {{Flat(With(Base(c, k, {k}, j), i, c.slots[i].singles[x])) : x \in DOMAIN c.slots[i].singles, j \in Rots(c)}
+  \cup UNION {{Flat(With(Base(c, k, {k}, j), i, c.slots[i].singles[x])) : x \in DOMAIN c.slots[i].singles, j \in DOMAIN c.slots[k].alts}
                 : i \in {y \in 1..N(c) : SameAlternative(c, y, k)}}
 MixedSlots(c) == {i \in 1..N(c) : Len(c.slots[i].pairs) >= 2}
 FamPairs(c, k) ==      \* repeatable mixed content: every ordering of two kinds, alone and among all other children
@@ -66,6 +66,7 @@ Step(op, x) ==
       jd == OrderedJudged(c, d, st.kids, op)
       f == FailingJ(c, d, st.kids, op, t, jd)
   IN /\ depth < DEPTH
+     /\ (depth = 0 \/ (op \in L2OPS /\ N(c) <= L2MAXSLOTS))   \* "insert after insert": what is applied to a state reached by one
      /\ InSeq(d.ops, op)
      /\ OpEnabled(c, d, st.kids, op)
      /\ st' = [st EXCEPT !.kids = t]
